@@ -155,4 +155,29 @@ PROPS = {
         "gen_facts": ["Gen.Dag.mergeComparisons = the scenario tests the model transcribes"],
         "timeout": {"quick": 900, "thorough": 7200},
     },
+    "C05": {
+        "level_text": "FULL on the modelled clock logic: for every sequence of increments, witnesses, reads and restarts the clock never "
+                      "decreases (run_monotone), an increment returns a value above the clock (increment_fresh), a witness leaves the clock "
+                      "at or above the witnessed value, a restart changes nothing (persist_restart), witnessing all packs dominates them "
+                      "(rebuild_dominates, merge_witnesses_remote), written times exceed everything seen (written_dominates); a deleted clock "
+                      "restarts at 1 and a torn one errors (so rebuilding from the entities is required: checked on the CLI path). The "
+                      "necessary hypothesis HopOK is made explicit by a kernel-checked counterexample (commit_unreadable_when_clock_far), "
+                      "replayed on the real code every run (known finding).",
+        "level_note": "Trusted: Lean kernel, harness. uint64 overflow and the CAS retry loop under real concurrency are not modelled "
+                      "(witness is modelled sequentially; witness_fold shows any order ends at the maximum). Decimal rendering of the clock "
+                      "file is abstracted (FileState) and validated on real files. Fixed in /repo: CLI opened the repository without clock "
+                      "loaders. Known finding: hop limit vs per-type clock.",
+        "required_theorems": ["increment_gt", "witness_ge", "witness_fold", "step_synced", "step_monotone", "run_monotone", "increment_fresh",
+                              "witness_dominates", "persist_restart", "deleted_clock_restarts", "torn_clock_errors", "rebuild_dominates",
+                              "merge_witnesses_remote", "written_dominates", "commit_unreadable_when_clock_far"],
+        "slices": ["C05"],
+        "needs_gitbug": True,
+        "rule": "clock sessions: 1..40 (quick) / 1..200 (thorough) operations over {increment, witness (small, equal, far ahead), read, "
+                "restart, delete file, truncate file by 1..3 digits} on PersistedClock (go-git repository, real files) and MemClock (mock); "
+                "entity sessions on two go-git replicas with a clock-vs-stored-times oracle after every step; the CLI path with deleted "
+                "clock files; replay of the hop-limit finding; non-trivial/distinct = distinct operation lists",
+        "trusted_base": [KERNEL, TIE, "model: GitBugModel.Lamport (increment, witness, getOrCreate, step, run) for util/lamport and the clock table of repository/gogit.go"],
+        "assumptions": ["no uint64 overflow", "the file system returns what was last written (torn writes are explored explicitly as truncations)"],
+        "gen_facts": [],
+    },
 }
